@@ -50,6 +50,8 @@ def dispatchOp (ins outs : List J) : Verdict :=
   | .atom "vec" :: rest => Sample.handleVec rest outs
   | .atom "gh" :: rest => Hist.handleLog rest outs
   | .atom "hyp" :: rest => Discrete.handleHyp rest outs
+  -- the exported variable stats.StdNormal reassigned: no state of the model (no modelled result reads it)
+  | [.atom "stdnormal", _, _] => if outs.map J.render == ["set"] then .ok "set-stdnormal" else .badOp "stdnormal"
   | .atom op :: rest =>
     if Graph.ops.contains op then Graph.handle op rest outs
     else .badOp s!"unknown op {op}"
